@@ -61,6 +61,21 @@ func Call(site string, f func()) (v *sim.Violation) {
 	return nil
 }
 
+// safeExtra runs the fixed tables; a panic of golib code in there is a violation.
+func safeExtra(spec *Spec, out *sim.WorkerOut) (cs []*sim.Case) {
+	defer func() {
+		if r := recover(); r != nil {
+			stk := string(debug.Stack())
+			fr := panicFrame(stk)
+			if fr == "?" {
+				panic(r) // not in golib: the harness's own bug
+			}
+			cs = append(cs, &sim.Case{Params: map[string]int{"scen": -1, "extra_table": 1}, Violation: &sim.Violation{Class: "panic", Site: spec.ID + " fixed tables", Detail: fmt.Sprintf("%v (at %s)", r, fr)}})
+		}
+	}()
+	return spec.Extra(out)
+}
+
 func panicFrame(stk string) string {
 	lines := strings.Split(stk, "\n")
 	for i, l := range lines {
@@ -124,9 +139,21 @@ func Main(spec *Spec) {
 			fmt.Fprintln(os.Stderr, "replay:", err)
 			os.Exit(2)
 		}
+		want := c.Violation
 		c.Violation = nil
 		sim.SetCurrent(c)
-		v, _ := spec.Exec(c, out)
+		var v *sim.Violation
+		if c.P("extra_table") == 1 && spec.Extra != nil {
+			// a finding of the fixed tables: replay = run the tables again
+			for _, ec := range safeExtra(spec, out) {
+				if v == nil || (want != nil && ec.Violation.Key() == want.Key()) {
+					v = ec.Violation
+				}
+			}
+			c.LogHash = "tables"
+		} else {
+			v, _ = spec.Exec(c, out)
+		}
 		c.Violation = v
 		out.Runs = 1
 		if v != nil {
@@ -143,7 +170,7 @@ func Main(spec *Spec) {
 	}
 
 	if spec.Extra != nil && *worker == 0 && *maxRuns == 0 {
-		for _, c := range spec.Extra(out) {
+		for _, c := range safeExtra(spec, out) {
 			c.Property, c.Engine = spec.ID, "C"
 			out.AddViolation(c)
 		}
